@@ -104,7 +104,10 @@ QUICK_PLANS = [
 ]
 THOROUGH_PLANS = [
     ("1req-full", dict(maxreqs=1, first="MCAll", later="MCAll", disp="MCDispAll", held=0, cuts="FALSE")),
-    ("2req", dict(maxreqs=2, first="MCTiny", later="MCTiny", disp="MCDispSmall", held=1, cuts="TRUE")),
+    ("2req", dict(maxreqs=2, first="MCTiny", later="MCTiny", disp="MCDispSmall", held=1, cuts="TRUE",
+                  rets='{"F", "1"}', ns="{1}", routes='{"direct"}')),
+    ("2req-wide", dict(maxreqs=2, first="MCTiny", later="MCTiny", disp="MCDispSmall", held=1, cuts="TRUE",
+                       rets='{"0", "R2"}')),
     ("3req", dict(maxreqs=3, first="MCMicro", later="MCMicro", disp="MCDispMicro", held=1, cuts="TRUE",
                   rets='{"F", "1"}', ns="{1}", routes='{"direct"}', modes="{2, 3, 4}")),
 ]
